@@ -1,6 +1,11 @@
 #!/bin/bash
 # dev helper: devrun.sh <test> <level> <checks> <seed>...   (env VERIF_EXCLUDE, VERIF_KNOWN pass through)
 T=$1; L=$2; N=$3; shift 3
+# known findings are active by default (VERIF_KNOWN=none switches them off)
+if [ -z "$VERIF_KNOWN" ]; then
+  export VERIF_KNOWN=$(python3 -c "import json; print(','.join(f['key'] for f in json.load(open('/verif/known_findings.json'))['findings'] if f['status']=='known' and f['key'] not in '${VERIF_UNKNOWN}'.split(',')))")
+fi
+mkdir -p /tmp/devroot/bin; ln -sfn ${VERIF_REPO:-/repo}/jobmanagers /tmp/devroot/jobmanagers; ln -sfn ${VERIF_REPO:-/repo}/adapters /tmp/devroot/adapters
 cd /verif/harness && export GOFLAGS=-mod=mod GOPROXY=off GOSUMDB=off GOTOOLCHAIN=local
 go test -tags verif -c -o /tmp/devroot/bin/run.test ./props/run || exit 2
 rm -rf /tmp/devrun && mkdir -p /tmp/devrun
